@@ -24,6 +24,23 @@ theorem no_T_only_defaults (tbl : Table) (hv : tbl.Vouched = true) (root : Node)
   | resolveIn m k n => simpa [EventOK] using this
   | getattr name k n => simpa [EventOK] using this
 
+/-- the same for **every archive**: whatever JSON the schema holds, an archive that loads with no trusted list
+resolves only default-trusted names and fixed documented constructors (memo invariant proved, no hypothesis on
+the tree) -/
+theorem no_T_only_defaults_archive (tbl : Table) (hv : tbl.Vouched = true) (hr : tbl.RefKindsInert = true)
+    (schema : Skops.J) (members : List String) (fuel : Nat) (ev : List Event)
+    (hload : load tbl schema members fuel [] = .constructed ev) :
+    ∀ e ∈ ev, match e with
+      | .resolve name _ _ => name ∈ tbl.allDefaults ∨ name ∈ fixedNames
+      | .resolveIn m _ _ => ∃ base, (m, base) ∈ guardedModules
+      | .getattr name _ _ => name ∈ tbl.allDefaults := by
+  intro e he
+  have := C01.load_archive_only_vouched tbl hv hr schema members fuel [] ev hload e he
+  cases e with
+  | resolve name k n => simpa [EventOK] using this
+  | resolveIn m k n => simpa [EventOK] using this
+  | getattr name k n => simpa [EventOK] using this
+
 /-- an untrusted name in an audited position is reported: a node that is walked and whose name is not
 among what it trusts contributes that name to the unsafe list -/
 theorem untrusted_name_reported (tbl : Table) (T : List String) (nid kind : Nat) (m c : String)
